@@ -284,6 +284,73 @@ Section CachedFacts.
       split; [exact Hq|]. split; [now symmetry|]. split; [exact Hsrc|]. reflexivity.
     Qed.
 
+    (* what forward returns is the upstream's reply to EXACTLY this question, OPT-stripped *)
+    Lemma forward_source u q c r : fst (forward_q ecs up u q c) = Some r ->
+      exists rep, up u (pack_req ecs q c) = UReply rep /\ reply_question_ok q rep = true /\ r = remove_opt rep.
+    Proof.
+      unfold forward_q. destruct (pack_req ecs q c) as [w| | |]; try discriminate.
+      destruct (up u (Ok w)) as [rep|] eqn:Eu; [|discriminate].
+      destruct (reply_question_ok q rep) eqn:Er; [|discriminate]. cbn [fst]. intros H. inversion H. eauto.
+    Qed.
+
+    (* C04 on the caching proxy, with the data: the records a client receives are either none (a locally generated
+       response) or the answer / authority records of a reply some upstream gave to a query carrying the client's OWN
+       (lower-cased) question, asked for a client with the same cache key — as received on a miss, TTL-aged on a hit *)
+    Theorem handle_c_own_answer st t ts eps m client : cinv st -> wf_msg m -> unsupported m = false ->
+      let r := co_resp (snd (handle_c' st t ts eps m client)) in
+      (m_an r = [] /\ m_ns r = []) \/
+      exists q qs u c rep,
+        m_qs m = q :: qs /\ ckey (lower_q q) c = ckey (lower_q q) client /\
+        up u (pack_req ecs (lower_q q) c) = UReply rep /\ reply_question_ok (lower_q q) rep = true /\
+        h_rcode (m_hdr r) = h_rcode (m_hdr rep) /\
+        ((m_an r = m_an rep /\ m_ns r = m_ns rep) \/
+         exists delta, m_an r = map (sub_rr delta) (m_an rep) /\ m_ns r = map (sub_rr delta) (m_ns rep)).
+    Proof.
+      intros Hi Hwm Hu. cbv zeta.
+      destruct (handle_c_supported st t ts eps m client Hu) as (q & qs & Hq & E). rewrite E. cbv zeta. cbn [co_resp].
+      assert (Hfix : forall x, m_an (fix_header m (if has_opt m then add_or_replace_opt x else remove_opt x)) = m_an x /\
+                               m_ns (fix_header m (if has_opt m then add_or_replace_opt x else remove_opt x)) = m_ns x /\
+                               h_rcode (m_hdr (fix_header m (if has_opt m then add_or_replace_opt x else remove_opt x))) = h_rcode (m_hdr x)).
+      { intros x. destruct (has_opt m); cbn; auto. }
+      unfold handle_req_c.
+      destruct (decide matches rules (q_name (lower_q q))) as [rc|u0|]; cbn [snd co_resp];
+        try (left; destruct (Hfix (empty_resp (lower_q q) rc)) as (A & B & _) || destruct (Hfix (empty_resp (lower_q q) RCodeRefused)) as (A & B & _);
+             rewrite A, B; cbn; auto).
+      destruct (cachectl_get st t (ckey (lower_q q) client)) as [st1 og] eqn:Eg.
+      assert (Hmiss : forall o : cp_state * creq_out,
+        o = match forward_q ecs up u0 (lower_q q) client with
+            | (Some r, eff) => (fst (cachectl_store maxttl st1 ts eps (ckey (lower_q q) client) (Some r) true), mkCout r eff false false)
+            | (None, eff) => (st1, mkCout (empty_resp (lower_q q) RCodeServFail) eff false false)
+            end ->
+        let r := fix_header m (if has_opt m then add_or_replace_opt (co_resp (snd o)) else remove_opt (co_resp (snd o))) in
+        (m_an r = [] /\ m_ns r = []) \/
+        exists q' qs' u c rep,
+          m_qs m = q' :: qs' /\ ckey (lower_q q') c = ckey (lower_q q') client /\
+          up u (pack_req ecs (lower_q q') c) = UReply rep /\ reply_question_ok (lower_q q') rep = true /\
+          h_rcode (m_hdr r) = h_rcode (m_hdr rep) /\
+          ((m_an r = m_an rep /\ m_ns r = m_ns rep) \/
+           exists delta, m_an r = map (sub_rr delta) (m_an rep) /\ m_ns r = map (sub_rr delta) (m_ns rep))).
+      { intros o ->. cbv zeta. destruct (forward_q ecs up u0 (lower_q q) client) as [[r0|] eff0] eqn:Ef; cbn [snd co_resp].
+        - assert (Hs : fst (forward_q ecs up u0 (lower_q q) client) = Some r0) by now rewrite Ef.
+          destruct (forward_source _ _ _ _ Hs) as (rep & Hup & Hok & ->).
+          right. exists q, qs, u0, client, rep. destruct (Hfix (remove_opt rep)) as (A & B & C).
+          split; [exact Hq|]. split; [reflexivity|]. split; [exact Hup|]. split; [exact Hok|].
+          split; [rewrite C; reflexivity|]. left. rewrite A, B. split; reflexivity.
+        - left. destruct (Hfix (empty_resp (lower_q q) RCodeServFail)) as (A & B & _). rewrite A, B. cbn. auto. }
+      destruct og as [| | | | | |mm s x]; try (apply Hmiss; reflexivity).
+      cbn [snd co_resp].
+      assert (Hs : snd (cachectl_get st t (ckey (lower_q q) client)) = OHit mm s x) by now rewrite Eg.
+      destruct (get_hit_entry _ _ _ _ _ _ Hs) as (e & Hf & -> & _ & _ & _).
+      destruct (Hi _ _ Hf) as (u & q0 & c0 & Hw0 & Hk & Hsrc).
+      pose proof (ckey_inj _ _ _ _ Hw0 (first_q_wf m q qs Hwm Hq) (eq_sym Hk)) as Hqq. subst q0.
+      destruct (forward_source _ _ _ _ Hsrc) as (rep & Hup & Hok & Hr).
+      right. exists q, qs, u, c0, rep.
+      destruct (Hfix (subtract_ttl (elapsed_secs t (e_stored e)) (e_msg e))) as (A & B & C).
+      split; [exact Hq|]. split; [now symmetry|]. split; [exact Hup|]. split; [exact Hok|].
+      split; [rewrite C, Hr; reflexivity|]. right. exists (elapsed_secs t (e_stored e)).
+      rewrite A, B, Hr. split; reflexivity.
+    Qed.
+
     (* C07 (converse clause) / C19: a response served from the cache costs no upstream exchange on the request path, at
        most one upstream query is made per request, and a prefetch is only ever started by a cache hit *)
     Theorem handle_c_effects st t ts eps m client : cinv st -> wf_msg m ->
